@@ -11,7 +11,7 @@ def mode_machine(p):
         C, D = rs.randint(1, 4), rs.randint(1, 4)
         ubm = mk_gmm(C, D, seed)
         for trainer in ("ml", "map"):
-            kw = dict(convergence_threshold=float(rs.choice([1e-3, 1e-7, 0.5])), max_fitting_steps=int(rs.randint(1, 9)),
+            kw = dict(convergence_threshold=float(rs.choice([1e-3, 1e-7, 0.5, 0.0])), max_fitting_steps=int(rs.randint(0, 9)),     # 0.0 / 0 are legitimate settings
                       update_means=bool(rs.randint(2)), update_variances=bool(rs.randint(2)), update_weights=bool(rs.randint(2)))
             m = mk_gmm(C, D, seed + 1, trainer=trainer, ubm=ubm if trainer == "map" else None, **kw)
             if seed % 2:
